@@ -106,11 +106,11 @@ func c07Tx(data []byte) *ethtypes.Transaction { return models.EthTx(7, data) }
 func c07Verdict(err error, same bool, label string) {
 	if same {
 		sym.Reach("reach-accepts-" + label)
-		sym.Assert(err == nil, "matching-transaction-accepted-" + label)
+		sym.Assert(err == nil, "matching-transaction-accepted-"+label)
 	} else {
 		sym.Reach("reach-rejects-" + label)
-		sym.Assert(err != nil, "non-matching-transaction-rejected-" + label)
-		sym.Assert(err == nil || errors.Is(err, ErrEthTxNotVerified), "mismatch-reported-as-not-verified-" + label)
+		sym.Assert(err != nil, "non-matching-transaction-rejected-"+label)
+		sym.Assert(err == nil || errors.Is(err, ErrEthTxNotVerified), "mismatch-reported-as-not-verified-"+label)
 	}
 }
 
@@ -221,11 +221,11 @@ func VerifC07_LogicCall() {
 // c07Common picks one of the fields shared by all signed actions (signature
 // prefix, relayer, signing valset) or reports -1 for "an action field".
 type c07Env struct {
-	all      []*consensustypes.SignData
-	q, d     c07Delivery
-	same     bool
-	label    string
-	nCommon  int
+	all     []*consensustypes.SignData
+	q, d    c07Delivery
+	same    bool
+	label   string
+	nCommon int
 }
 
 func c07Setup(label string, nAction int) (*c07Env, int) {
